@@ -246,6 +246,8 @@ func (m *Mirror) HandleProposedHeader(ctx context.Context, ph tmconsensus.Propos
 		return tmconsensus.HandleProposedHeaderMissingProposerPubKey
 	}
 
+	backfilledCommit := false
+
 RESTART:
 	req := tmi.PHCheckRequest{
 		PH:   ph,
@@ -280,6 +282,13 @@ RESTART:
 		return tmconsensus.HandleProposedHeaderSignerUnrecognized
 	case tmi.PHCheckNextHeight:
 		// Special case: we make an additional request to the kernel if the PH is for the next height.
+		if backfilledCommit {
+			// The previous commit proof was already offered once
+			// and it did not advance the voting height,
+			// so the header is still ahead of what we can handle.
+			return tmconsensus.HandleProposedHeaderRoundTooFarInFuture
+		}
+		backfilledCommit = true
 		m.backfillCommitForNextHeightPE(ctx, req.PH)
 		goto RESTART // TODO: find a cleaner way to apply the proposed block after backfilling commit.
 	case tmi.PHCheckRoundTooOld:
